@@ -123,24 +123,42 @@ class TPayload:
         return format(self.text, spec)
 
 
+def _bad(kind, what):
+    """how rendering fails: ValueError, a non-string result (str() raises TypeError), RuntimeError, KeyError()"""
+    if kind == 0:
+        raise ValueError("E2: " + what + " cannot be rendered")
+    if kind == 1:
+        return None
+    if kind == 2:
+        raise RuntimeError("E2: " + what + " cannot be rendered")
+    raise KeyError()
+
+
+BAD_KINDS = (0, 1, 2, 3)
+
+
 class BadPayload:
     """a payload that cannot be rendered"""
 
+    def __init__(self, kind=0):
+        self.kind = kind
+
     def __str__(self):
-        raise ValueError("E2: payload cannot be rendered")
+        return _bad(self.kind, "payload")
 
     def __repr__(self):
-        raise ValueError("E2: payload cannot be rendered")
+        return _bad(self.kind, "payload")
 
     def __format__(self, spec):
-        raise ValueError("E2: payload cannot be rendered")
+        return _bad(self.kind, "payload")
 
 
 class BadError(Exception):
     """an agent exception that cannot be rendered"""
+    kind = 0
 
     def __str__(self):
-        raise ValueError("E2: exception cannot be rendered")
+        return _bad(self.kind, "exception")
 
 
 def _decision(r, prompt):
@@ -154,23 +172,28 @@ def _decision(r, prompt):
 def unrenderable_row(L, T, g, z, y, prompt, good):
     """the gate's decision on payloads that cannot be rendered (None: it raised, or decided differently)"""
     seen = set()
-    for zbad, ybad in ((True, False), (False, True), (True, True)):
-        loop = _mk_loop(L, g)
-        zo = T.ActionProtein(TStr(z), BadPayload() if zbad else "z payload", 0.5)
-        yo = T.ActionProtein(TStr(y), BadPayload() if ybad else "y payload", 0.5)
-        try:
-            with contextlib.redirect_stdout(io.StringIO()):
-                r = loop._apply_gate_logic(zo, yo, prompt)
-            seen.add(_decision(r, prompt))
-        except Exception:  # noqa  (rendering failed inside the gate)
-            return None
+    for kind in BAD_KINDS:
+        for zbad, ybad in ((True, False), (False, True), (True, True)):
+            loop = _mk_loop(L, g)
+            zo = T.ActionProtein(TStr(z), BadPayload(kind) if zbad else "z payload", 0.5)
+            yo = T.ActionProtein(TStr(y), BadPayload(kind) if ybad else "y payload", 0.5)
+            try:
+                with contextlib.redirect_stdout(io.StringIO()):
+                    r = loop._apply_gate_logic(zo, yo, prompt)
+                seen.add(_decision(r, prompt))
+            except Exception:  # noqa  (rendering failed inside the gate)
+                return None
     return good if seen == {good} else None
 
 
 def safe_rendering_probes(L, T):
     """(handlerRendersSafely, printRendersSafely) evaluated on the real run()"""
+    state = {"kind": 0}
+
     def raiser():
-        raise BadError()
+        e = BadError()
+        e.kind = state["kind"]
+        raise e
 
     class A:
         def __init__(self, name, f):
@@ -181,25 +204,25 @@ def safe_rendering_probes(L, T):
             return self.f()
     handler = True
     try:
-        for who in ("z", "y"):
-            for g in L.GateLogic:
-                loop = _mk_loop(L, g, enable_cache=False, failure_threshold=10 ** 6)
-                loop.executor = A("E2-executor", raiser if who == "z" else (lambda: T.ActionProtein("EXECUTE", "p", 0.5)))
-                loop.assessor = A("E2-assessor", raiser if who == "y" else (lambda: T.ActionProtein("PERMIT", "p", 0.5)))
-                with contextlib.redirect_stdout(io.StringIO()):
-                    r = loop.run(f"E2 unprintable exception {who} {g.value}")
-                st = loop.get_circuit_breaker_stats()
-                if not (r.action == "ERROR" and r.blocked is True and r.success is False and r.approval_token is None
-                        and st.failure_count == 1 and loop.executor.n == 1 and loop.assessor.n == (0 if who == "z" else 1)):
-                    handler = False
+        for who, g, kind in [(w, g, k) for w in ("z", "y") for g in L.GateLogic for k in BAD_KINDS]:
+            state["kind"] = kind
+            loop = _mk_loop(L, g, enable_cache=False, failure_threshold=10 ** 6)
+            loop.executor = A("E2-executor", raiser if who == "z" else (lambda: T.ActionProtein("EXECUTE", "p", 0.5)))
+            loop.assessor = A("E2-assessor", raiser if who == "y" else (lambda: T.ActionProtein("PERMIT", "p", 0.5)))
+            with contextlib.redirect_stdout(io.StringIO()):
+                r = loop.run(f"E2 unprintable exception {who} {g.value}")
+            st = loop.get_circuit_breaker_stats()
+            if not (r.action == "ERROR" and r.blocked is True and r.success is False and r.approval_token is None
+                    and st.failure_count == 1 and loop.executor.n == 1 and loop.assessor.n == (0 if who == "z" else 1)):
+                handler = False
     except Exception:  # noqa
         handler = False
     printing = True
     try:
-        for g in L.GateLogic:
+        for g, kind in [(g, k) for g in L.GateLogic for k in BAD_KINDS]:
             loop = _mk_loop(L, g, enable_cache=False)
             loop.silent = False
-            loop.executor.next = T.ActionProtein("EXECUTE", BadPayload(), 0.5)
+            loop.executor.next = T.ActionProtein("EXECUTE", BadPayload(kind), 0.5)
             loop.assessor.next = T.ActionProtein("PERMIT", "p", 0.5)
             with contextlib.redirect_stdout(io.StringIO()):
                 r = loop.run(f"E2 unrenderable payload printed {g.value}")
